@@ -71,19 +71,21 @@ func (m *Sparse) Load(addr model.Addr, w expr.Width) (expr.Expr, bool) {
 		return nil, false
 	}
 
-	var finalEx expr.Expr
-	if low := ints[0].Low; low == addr {
-		finalEx = ints[0].Val.expr()
-	} else {
-		finalEx = ints[0].Val.cutBegin(expr.Width(addr - low)).expr()
+	first := ints[0].Val
+	if ints[0].Low < addr {
+		first = first.cutBegin(expr.Width(ints[0].High - addr))
 	}
+	if ints[0].High > end {
+		first = first.cutEnd(w)
+	}
+	finalEx := first.expr()
 
 	for _, o := range ints[1:] {
 		var ex expr.Expr
 		if o.High <= end {
 			ex = o.Val.expr()
 		} else {
-			ex = o.Val.cutEnd(expr.Width(o.High - end)).expr()
+			ex = o.Val.cutEnd(expr.Width(end - o.Low)).expr()
 		}
 
 		ex = expr.NewBinary(expr.Lsh, ex, expr.ConstFromUint((o.Low-addr)*8), w)
